@@ -18,6 +18,8 @@ use crate::{
 };
 
 pub struct CaseCtx {
+    /// The run's global seed (VERIF_SEED); case_seed is derived from it.
+    pub seed: u64,
     pub property: &'static str,
     pub tier: Tier,
     pub family: &'static str,
@@ -113,6 +115,7 @@ pub fn run_plan(plan: Vec<PlanItem>, opts: &RunOpts) -> J {
         let cs = case_seed(opts.seed, item.family, 0);
         let mk = || {
             (item.run)(&CaseCtx {
+                seed: opts.seed,
                 property: opts.property,
                 tier: opts.tier,
                 family: item.family,
@@ -168,6 +171,7 @@ pub fn run_plan(plan: Vec<PlanItem>, opts: &RunOpts) -> J {
                 let item = &plan[pi];
                 let cs = case_seed(seed, item.family, index);
                 let ctx = CaseCtx {
+                    seed,
                     property,
                     tier,
                     family: item.family,
